@@ -41,10 +41,10 @@ def F23B.parse (input : Text) : Res Code := do
   parseUppercase c
   if codes23B.contains c then pure ⟨c⟩ else Res.err
 
+def isUpperAlnum (c : Char) : Bool := c.isUpper || c.isDigit
 def F26T.parse (input : Text) : Res Code := do
   let c ← parseExactLength input 3
-  parseAlphanumeric c
-  pure ⟨c⟩
+  if c.all isUpperAlnum then pure ⟨c⟩ else Res.err
 
 def codes71A : List Text := ["BEN", "OUR", "SHA"].map String.toList
 def F71A.parse (input : Text) : Res Code := do
@@ -59,6 +59,7 @@ def Code.ser (v : Code) : Text := v.code
 def F25.parse (input : Text) : Res Text := do
   let stripped := match input with | '/' :: r => r | _ => input
   let a ← parseMaxLength stripped 35
+  if a.isEmpty then Res.err else
   parseSwiftChars a
   pure a
 def F25.ser (a : Text) : Text := '/' :: a
@@ -88,6 +89,7 @@ def u32Max : Nat := 4294967295
 
 def Stmt.parse (seqLen seqMax : Nat) (input : Text) : Res Stmt := do
   let (st, sq) := splitAtFirst '/' input
+  if sq.isNone && input.contains '/' then Res.err else
   if blen st > 5 then Res.err else
   parseNumeric st
   let n ← parseUInt st u32Max
@@ -151,6 +153,7 @@ def offsetOk (offset : Text) : Res Unit := do
   if h > 14 || m > 59 then Res.err else pure ()
 
 def F13C.parse (input : Text) : Res F13C := do
+  if !isAsciiT input then Res.err else
   if blen input < 10 then Res.err else
   match input with
   | '/' :: rest =>
@@ -189,6 +192,7 @@ structure F13D where
   deriving DecidableEq, Repr
 
 def F13D.parse (input : Text) : Res F13D := do
+  if !isAsciiT input then Res.err else
   if blen input != 15 then Res.err else do
   let ds ← bslice input 0 6
   let date ← Res.ofOption (parseDateYYMMDD ds)
@@ -216,6 +220,7 @@ structure F11 where
   deriving DecidableEq, Repr
 
 def F11RS.parse (input : Text) : Res F11 := do
+  if !isAsciiT input then Res.err else
   if blen input < 3 then Res.err else do
   let mt ← bto input 3
   parseNumeric mt
@@ -243,6 +248,7 @@ def F11RS.json (v : F11) : J :=
 
 /-- 11 `3!n6!n` -/
 def F11.parse (input : Text) : Res F11 := do
+  if !isAsciiT input then Res.err else
   if blen input != 9 then Res.err else do
   let mt ← bto input 3
   parseNumeric mt
@@ -261,6 +267,7 @@ structure F23 where
   deriving DecidableEq, Repr
 
 def F23.parse (input : Text) : Res F23 := do
+  if !isAsciiT input then Res.err else
   if blen input < 4 then Res.err else do
   let fc ← bslice input 0 3
   parseUppercase fc
@@ -292,13 +299,15 @@ structure F23E where
   deriving DecidableEq, Repr
 
 def F23E.parse (input : Text) : Res F23E := do
+  if !isAsciiT input then Res.err else
   if blen input < 4 then Res.err else do
   let code ← bslice input 0 4
-  parseUppercase code
+  if !(code.all isUpperAlnum) then Res.err else
   if blen input > 4 then do
     let tail ← bfrom input 4
     if tail.head? != some '/' then Res.err else do
     let info ← bfrom input 5
+    if info.isEmpty then Res.err else
     if blen info > 35 then Res.err else do
     parseSwiftChars info
     pure ⟨code, some info⟩
@@ -313,7 +322,7 @@ def Narr.ser (ls : List Text) : Text := joinNl ls
 
 /-- 77A / 77B go through `str::lines()` and `validate_multiline_text`. -/
 def NarrL.parse (maxLines maxLen : Nat) (input : Text) : Res (List Text) :=
-  validateMultilineText (linesOf input) maxLines maxLen
+  validateMultilineText (splitNl input) maxLines maxLen
 
 def F77T.parse (input : Text) : Res Text :=
   if input.isEmpty then .err else if blen input > 9000 then .err else .ok input
